@@ -180,10 +180,19 @@ impl<'a, D> DfsDist<'a, D> {
         D: Order,
         T: Iterator<Item = usize>,
     {
+        let order = digraph.order();
+        let mut stack = Vec::new();
+
+        for u in sources {
+            assert!(u < order, "u = {u} isn't in the digraph");
+
+            stack.push((u, 0));
+        }
+
         Self {
             digraph,
-            stack: sources.map(|u| (u, 0)).collect(),
-            visited: vec![false; digraph.order()],
+            stack,
+            visited: vec![false; order],
         }
     }
 }
